@@ -1,4 +1,6 @@
-import Props.SlicesGen
+import Props.GenFetcher
+import Props.GenHeads
+import Props.GenLoaders
 open Model.SlicesGen
 #print axioms entryLastN_eq
 #print axioms findHeads_eq
